@@ -10,6 +10,7 @@ for d in /verif/seeded/*/; do
   ks=""
   grep -q "src/psi/mod.rs" $f && ks="$ks psi"
   grep -q "src/demultiplex.rs" $f && grep -qE "filters_by_pid|updates|FilterChange|fn (insert|remove|contains|get|apply|is_empty)" $f && ks="$ks filters"
+  grep -q "src/demultiplex.rs" $f && grep -qE "'outer|'inner|itr\.next|this_proc|this_pid|add_pid_filter" $f && ks="$ks push"
   grep -q "src/packet.rs" $f && ks="$ks packet"
   grep -q "src/pes.rs" $f && ks="$ks pes"
   [ -z "$ks" ] && continue
